@@ -1267,8 +1267,9 @@ class Interp:
         last = x[-1]
         if is_form(last, "quote"):
             return self.ev(last[1], fr)
-        if is_form(last, "ctval"):  # ("ctval", python-value): a compile-time computed constant
-            return last[1]
+        if not isinstance(last, tuple) or last[0] in ("str", "[", "#(", "-", "*", "+"):
+            # a literal or constant arithmetic: its compile-time value, compiled as code, is that constant again
+            return self.ev(last, fr)
         raise RefError("do-mac body must end in a quoted form in skeletons")
 
     # -- operators (documented expansions)
